@@ -317,7 +317,7 @@ def main():
             "guard": "verif",
             "enable": "go build -tags verif (the harness in /verif/harness imports /repo through a replace directive)",
             "baseline_off_cmd": "cd /repo && GOFLAGS=-mod=mod go test -json -vet=off -count=1 -timeout 25m ./...",
-            "source_commits": ["45e309d", "4628913", "167efa4"],
+            "source_commits": ["45e309d", "4628913", "167efa4", "309d611"],
             "add_only": True,
         },
         "engines": [
